@@ -20,6 +20,7 @@
 #   (G10) np.sum(a) of a 1-d float array                               Py.LG.sumK a
 #   (G11) m[1:] / m[:-1] of a 2-d float array                          m.drop 1 / m.dropLast
 #   (G13) n.branch()[k] for a node handle n and an int literal k      the tree node at entry k of the translated `node_branch` of n
+#   (G14) f(args) for a translated module-level function of LG_FUNCS   its ambient parameters (`pi`) are the caller's variables of that name
 #   (G12) x ** k for a float x and an int k                          Py.LG.powInt x k  (repeated `*`; k < 0 needs a division: raises here)
 # TRUSTED GLUE is listed next to each spec and in design_notes/session4/lmgeo.md.
 LEAN_KEYWORDS.add("bif")                      # `bif c then a else b` is a Lean token: the python name `bif` becomes `bif_`
@@ -29,6 +30,7 @@ MODULE_MODEL_IMPORTS["AlgoLmGeo"] = ["PyMore", "PyResample", "PyLmGeo"]
 
 LG_NODE_METHODS = {}     # method name of `Node` / `Tree.Node` -> lean name (methods taking arguments / float columns / pure function parameters)
 LG_SELF_METHODS = {}     # python text `self.m` -> lean name of the translated LMeasure method
+LG_FUNCS = {}            # python text of a module-level function -> (lean name, [its ambient parameters])
 LG_FCALLS = {}           # lean name of the caller -> {python callee text: (name of the pure function parameter, result type, fallible?)}
 
 
@@ -207,6 +209,30 @@ def _lg_expr(tr, e, want):
             n = tr.bindname()
             return steps + [f"Py.bind {call} fun {n} =>"], n, parse_type(rty)
         return steps, call, parse_type(rty)
+    # (G14) a translated module-level function of LG_FUNCS: its AMBIENT parameters (constants such as `pi` that stand for `math.pi` in the callee) are the
+    #       caller's variables of the same name, the remaining parameters are the positional arguments
+    if f in LG_FUNCS and not kw:
+        lean, ambient = LG_FUNCS[f]
+        callee = by_lean_global[lean]
+        rest = [p_ for p_ in callee.params if p_ not in ambient]
+        if len(rest) != len(args) or callee.fuel:
+            return None
+        if any(b not in tr.spec.fparams for b in callee.fparams):
+            raise Untranslatable(f"{tr.spec.lean}: `{f}` needs the pure function parameters {callee.fparams}")
+        steps, codes = [], {}
+        for pn in ambient:
+            if tr.vars.get(pn) != parse_type(callee.vars[pn]):
+                raise Untranslatable(f"{tr.spec.lean}: `{f}` needs the ambient parameter `{pn}`")
+            codes[pn] = f"v.{lname(pn)}"
+        for pn, x in zip(rest, args):
+            pt = parse_type(callee.vars[pn])
+            s0, c, t = tr.tr(x, pt)
+            if t != pt:
+                raise Untranslatable(f"{tr.spec.lean}: `{ast.unparse(e)}`: argument `{ast.unparse(x)}` is {t}, expected {pt}")
+            steps += s0; codes[pn] = c
+        n = tr.bindname()
+        fa = "".join(nm + " " for nm in _lg_fnames(callee))
+        return steps + [f"Py.bind ({callee.lean} {fa}{' '.join(codes[p_] for p_ in callee.params)}) fun {n} =>"], n, parse_type(callee.ret)
     # (G1)
     if f == "np.array" and len(args) == 1 and isinstance(args[0], ast.List) and args[0].elts and \
             (not kw or (set(kw) == {"dtype"} and ast.unparse(kw["dtype"]) in ("np.float32", "np.float64"))):
@@ -354,3 +380,32 @@ spec(lean="lm_bif_ampl_remote", module="AlgoLmGeo", file=_LM, cls="LMeasure", fu
      vars=dict(_LGXV, ids="List Int", pids="List Int", bif="Node@bif.attach", v1="List K", v2="List K"),
      ret="K", tree_cols=_LGBX)
 LG_FCALLS["lm_bif_ampl_remote"] = {"angle": ("angle", "K", True), "np.degrees": ("degrees", "K", False)}
+
+# --- compartment level.  A compartment is the list `[pid, idx]` of its two node indices (Compartment.__init__ stores `np.array([pid, idx])`, C09).
+# TRUSTED GLUE: `math.pi` is the parameter `pi`; `self.compartment_point` is the parameter `compartment_point` (0 | -1);
+# `compartment[self.compartment_point]` is the tree node at that entry of the index list and `compartment.length()` the translated Path.length
+# (the same two rules as for `branch[k]` / `branch.length()` above).
+_LG_PI = {"math.pi": ("v.pi", "K")}
+spec(lean="circle_area", module="AlgoLmGeo", file=_LM, func="circle_area", params=["pi", "r"], num_tparams=["K"], vars={"pi": "K", "r": "K"}, ret="K",
+     subst=dict(_LG_PI))
+spec(lean="cylinder_volume", module="AlgoLmGeo", file=_LM, func="cylinder_volume", params=["pi", "r", "h"], num_tparams=["K"],
+     vars={"pi": "K", "r": "K", "h": "K"}, ret="K", subst=dict(_LG_PI))
+spec(lean="cylinder_side_surface_area", module="AlgoLmGeo", file=_LM, func="cylinder_side_surface_area", params=["pi", "r", "h"], num_tparams=["K"],
+     fparams=[_LG_F], vars={"pi": "K", "r": "K", "h": "K"}, ret="K", subst=dict(_LG_PI))
+LG_FUNCS["circle_area"] = ("circle_area", ["pi"])
+LG_FUNCS["cylinder_volume"] = ("cylinder_volume", ["pi"])
+LG_FUNCS["cylinder_side_surface_area"] = ("cylinder_side_surface_area", ["pi"])
+_LGC = {"compartment[self.compartment_point]": ("cp_", "Node@compartment.attach", ["Py.bind (Py.idx v.compartment v.compartment_point) fun cp_ =>"]),
+        "compartment.length()": ("cl_", "K", ["Py.bind (path_length norm v.xs v.ys v.zs v.compartment) fun cl_ =>"])}
+spec(lean="lm_length", module="AlgoLmGeo", file=_LM, cls="LMeasure", func="length", params=["xs", "ys", "zs", "compartment"],
+     num_tparams=["K"], fparams=[_LG_NORM], vars=dict(_LGXV, compartment="List Int"), ret="K", subst={"compartment.length()": _LGC["compartment.length()"]})
+spec(lean="lm_section_area", module="AlgoLmGeo", file=_LM, cls="LMeasure", func="section_area", params=["pi", "rs", "node"], num_tparams=["K"],
+     vars={"pi": "K", "rs": "List K", "node": "Node@node.attach"}, ret="K", tree_cols={"node.attach": {"r": "rs"}})
+spec(lean="lm_volume", module="AlgoLmGeo", file=_LM, cls="LMeasure", func="volume", params=["pi", "compartment_point", "xs", "ys", "zs", "rs", "compartment"],
+     num_tparams=["K"], fparams=[_LG_NORM],
+     vars=dict(_LGXV, pi="K", compartment_point="Int", rs="List K", compartment="List Int", p="Node@compartment.attach"), ret="K",
+     subst=dict(_LGC), tree_cols={"compartment.attach": {"r": "rs"}})
+spec(lean="lm_surface", module="AlgoLmGeo", file=_LM, cls="LMeasure", func="surface", params=["pi", "compartment_point", "xs", "ys", "zs", "rs", "compartment"],
+     num_tparams=["K"], fparams=[_LG_F, _LG_NORM],
+     vars=dict(_LGXV, pi="K", compartment_point="Int", rs="List K", compartment="List Int", p="Node@compartment.attach"), ret="K",
+     subst=dict(_LGC), tree_cols={"compartment.attach": {"r": "rs"}})
